@@ -702,9 +702,8 @@ class Explorer:
                         ctx.env = env
                         self.on_exit(user, ctx, ev.get('e'), ev)
                 env = self._apply_event(ev, env)
-                if ev['ev'] in ('assign', 'decl', 'return') and any(k[0] == 'lc' for k in env) \
-                        and _is_logical(ev.get('init') if ev['ev'] == 'decl' else
-                                        (ev['e'].get('r') if ev['ev'] == 'assign' else ev.get('e'))):
+                if ev['ev'] in ('assign', 'decl', 'return', 'incdec') and any(k[0] == 'lc' for k in env):
+                    # operand outcomes are only meaningful up to the statement that consumes the expression
                     env = {k: v for k, v in env.items() if k[0] != 'lc'}
             succs = blk['succs']
             term = blk.get('term')
@@ -723,7 +722,7 @@ class Explorer:
                 continue
             if len(succs) == 2 and term is not None and term.get('cond') is not None:
                 atom, sense = norm_cond(term['cond'])
-                shortcut = kind in ('BinaryOperator', 'ConditionalOperator')
+                shortcut = kind == 'BinaryOperator'
                 if not shortcut and any(k[0] == 'lc' for k in env):
                     env = {k: v for k, v in env.items() if k[0] != 'lc'}     # the condition has been consumed
                 for idx, s in enumerate(succs):
